@@ -301,7 +301,8 @@ Definition code_of (c : qapi) : list instr :=
   | AEmptyQ => [ILocal [] (fun _ sh lo => (sh, lo_snap lo (g_settled sh)))]      (* ghost: what was settled when the call began *)
                ++ eval_empty ++ [ILocal [] (fun _ sh lo => (sh, lo_res lo (lbe lo))); IRes]
   | AWait => [ILock QM; IWaitLoop false; IUnlock QM; IDone]
-  | AWaitFor => [ILock QM; IWaitLoop true; IUnlock QM; IRes]
+  | AWaitFor => [ILocal [] (fun _ sh lo => (sh, lo_snap lo (g_settled sh)));     (* ghost: what was settled when the call began (C11) *)
+                 ILock QM; IWaitLoop true; IUnlock QM; IRes]
   | ADisableBegin => [IAInc NC; IDone]
   | ADisableEnd =>
       (* ~DisableQueueNotify(): the decrement is inside a queueListMutex section iff the header says so (tie A) *)
